@@ -45,7 +45,9 @@ RULE = (
     'two-pair chunk, every 2x2 / 1x3 / 3x1 string loop over the reduced alphabets, every scalar number form, numeric '
     'loops rows x cols x {plain, variances} x dtype, every sequence of <= 3 block items x comment/schema variants, '
     'multi-block files over the block-name alphabet, every builder call sequence up to the depth bound, every '
-    'alphabet string in every builder string slot; one state = one written document; a document is non-trivial when '
+    'alphabet string in every builder string slot; modify-after-write programs: write, then every sequence of public '
+    'mutators (column / key replace and add, comment and name setters, Block.add, mutation of shared items, with_* / '
+    'copy / setters on a saved builder) with a write through two routes after every step; one state = one written document; a document is non-trivial when '
     'it contains at least one data item; distinct = distinct case hashes x inner index'
 )
 ASSUMPTIONS = [
@@ -60,9 +62,10 @@ BOUND = {
     'quick': 'S=76 strings: S x 5 routes, S^2 ordered pairs, 12^4 2x2 loops, 34^3 1x3 and 3x1 loops, 73 scalar number '
     'forms x 2 routes, numeric loops 1..50 rows x 1..6 cols x {plain, variances} x 3 dtypes, block item sequences <= 3 over 8 '
     'items x 12 comment/schema variants, 1..3 blocks over the name alphabet, all builder call sequences of length <= 3 '
-    'over 26 operations (18279), S x 9 builder string slots',
+    'over 26 operations (18279), S x 9 builder string slots; modify-after-write: all mutator sequences of length <= 2 '
+    'for Loop (36 mutators) and Chunk (44), <= 3 for Block (22) and the saved builder (12)',
     'thorough': 'same with 16^4 2x2 loops, 76^3 1x3 and 3x1 loops, and all builder sequences of length 4 over the '
-    '10-operation core',
+    '10-operation core; modify-after-write sequences of length 3 for Loop and Chunk',
 }
 CHUNK = 24
 REQUIRED_CLASSES = [
@@ -71,7 +74,9 @@ REQUIRED_CLASSES = [
     'block_name_rejected', 'sink_path', 'sink_buffer', 'schema_loop', 'multi_block',
     'authors_chunk', 'authors_loop', 'roles_loop', 'roles_ref_ok', 'contact_and_regular', 'reducers_pair',
     'reducers_loop', 'builder_copy', 'builder_resave', 'powder_loop', 'calibration_loop', 'beamline_chunk',
-    'builder_immutable',
+    'builder_immutable', 'mut_loop_replaced', 'mut_loop_added', 'mut_chunk_replaced', 'mut_chunk_added',
+    'mut_block_added', 'mut_inner_item', 'mut_renamed', 'mut_comment_changed', 'mut_builder_after_save',
+    'mut_back_to_original', 'mut_rejected',
 ]
 
 BL = cp.BLANK
@@ -510,7 +515,7 @@ def check_ids(ids):
     return None
 
 
-def judge(rec, site, text, *, header, sub, blocks=None, name=None, groups=None):
+def judge(rec, site, text, *, header, sub, blocks=None, name=None, groups=None, comments=None):
     """Run the oracle on one written document. Returns True if it was accepted."""
     rec.transitions += 1
     rec.states += 1
@@ -542,6 +547,13 @@ def judge(rec, site, text, *, header, sub, blocks=None, name=None, groups=None):
     if m:
         rec.viol(site, 'author_ids', f'{m}; file: {text[:300]!r}', **sub)
         return False
+    if comments is not None:
+        # programs that change comments: the file carries exactly the current comment lines
+        got_c = sorted(cp.unescape(c).strip(BL) for _, c in doc.comments[(1 if doc.header else 0) :])
+        want_c = sorted(ln.strip(BL) for c in comments for ln in c.splitlines())
+        if got_c != want_c:
+            rec.viol(site, 'comment_mismatch', f'comments in file {got_c[:6]}, current comments {want_c[:6]}; file: {text[:300]!r}', **sub)
+            return False
     if ids.get('ref'):
         rec.cls('roles_ref_ok')
     rec.cls('doc_ok')
@@ -581,7 +593,7 @@ def _group_exps(g):
     return []
 
 
-def attempt(rec, site, write, *, header, sub, blocks=None, name=None, groups=None):
+def attempt(rec, site, write, *, header, sub, blocks=None, name=None, groups=None, comments=None):
     """Build + write a document with the real code, then judge it.
 
     ``write`` returns the text.  An exception is an accepted refusal only when a supplied
@@ -601,7 +613,7 @@ def attempt(rec, site, write, *, header, sub, blocks=None, name=None, groups=Non
             return None
         rec.viol(site, 'raises', f'{type(e).__name__}: {e}', **sub)
         return None
-    judge(rec, site, text, header=header, sub=sub, blocks=blocks, name=name, groups=groups)
+    judge(rec, site, text, header=header, sub=sub, blocks=blocks, name=name, groups=groups, comments=comments)
     return text
 
 
@@ -706,6 +718,19 @@ def cases(tier):
             out.append({'kind': 'builder', 'ops': list(seq)})
     for lab in LABELS:
         out.append({'kind': 'builder_str', 'v': lab})
+    # modify after write
+    for target in ('loop', 'chunk', 'block'):
+        for depth in (1, 2, 3):
+            if depth == 3 and not (tier == 'thorough' or target == 'block'):
+                continue
+            for first in MUTATORS[target]:
+                out.append({'kind': 'mutate', 'target': target, 'first': first, 'depth': depth})
+    for n in range(0, 4):
+        for prog in itertools.product(BUILDER_MUTATORS, repeat=n):
+            out.append({'kind': 'mutate_builder', 'program': list(prog)})
+    for target in ('block', 'builder'):
+        for nm in ('a b', 'a\tb', 'a\nb'):
+            out.append({'kind': 'badname_after_write', 'target': target, 'name': nm})
     return out
 
 
@@ -1212,10 +1237,342 @@ def run_builder_str(case, rec):
                 rec.viol('CIF.name', 'accepted_bad_name', f'name {v!r} accepted', **sub_for([lab]))
 
 
+# ---------------------------------------------------------------------------------------
+# modify after write: write / save once, apply public mutators, write again; every
+# document must describe the content the object holds *at the time of that write*
+
+MUT_VALUES = {
+    'f0': lambda: (sc.array(dims=['row'], values=[1.2, 1.4, 2.3], unit='us'), [('f64', v) for v in (1.2, 1.4, 2.3)]),
+    'f1': lambda: (sc.array(dims=['row'], values=[11.0, 22.0, 33.5], unit='us'), [('f64', v) for v in (11.0, 22.0, 33.5)]),
+    'f2': lambda: (sc.array(dims=['row'], values=[1.2, 1.4, 2.5], unit='us'), [('f64', v) for v in (1.2, 1.4, 2.5)]),
+    'i0': lambda: (sc.array(dims=['row'], values=[1, 2, 3], dtype='int64', unit='counts'), [('int', v) for v in (1, 2, 3)]),
+    'fv': lambda: (
+        sc.array(dims=['row'], values=[13.6, 26.0, 9.7], variances=[0.7, 1.1, 0.5]),
+        [('unc', a, b, 'f64') for a, b in zip((13.6, 26.0, 9.7), (0.7, 1.1, 0.5), strict=True)],
+    ),
+    'fv1': lambda: (
+        sc.array(dims=['row'], values=[13.6, 26.0, 9.7], variances=[0.0009, 0.04, 0.0025]),
+        [('unc', a, b, 'f64') for a, b in zip((13.6, 26.0, 9.7), (0.0009, 0.04, 0.0025), strict=True)],
+    ),
+    'fnov': lambda: (sc.array(dims=['row'], values=[13.6, 26.0, 9.7]), [('f64', v) for v in (13.6, 26.0, 9.7)]),
+    's0': lambda: (_strings_var(['a', 'b c', 'd']), [('str', v) for v in ('a', 'b c', 'd')]),
+    's1': lambda: (_strings_var(['_x', "it's", 'two\nlines']), [('str', v) for v in ('_x', "it's", 'two\nlines')]),
+    's2': lambda: (_strings_var(['a', 'b c', 'e']), [('str', v) for v in ('a', 'b c', 'e')]),
+}
+MUT_SCALARS = {
+    'abc': lambda: ('abc', ('str', 'abc')),
+    'apos': lambda: ("it's", ('str', "it's")),
+    'blank': lambda: ('two words', ('str', 'two words')),
+    'text': lambda: ('line1\nline2', ('str', 'line1\nline2')),
+    'under': lambda: ('_x', ('str', '_x')),
+    'empty': lambda: ('', ('str', '')),
+    'float': lambda: (2.5, ('f64', 2.5)),
+    'float0': lambda: (1.5, ('f64', 1.5)),
+    'int': lambda: (7, ('int', 7)),
+    'unc': lambda: (sc.scalar(1.2, variance=0.09, unit='m'), ('unc', 1.2, 0.09, 'f64')),
+}
+MUT_COMMENTS = {'comment_set': 'changed comment\nsecond line', 'comment_uml': 'ünï', 'comment_clear': '', 'comment_orig': 'original comment'}
+
+
+def _loop_mutators():
+    out = [f'set:{col}:{v}' for col in ('n.x', 'n.s', 'n.y', 'n.z') for v in MUT_VALUES]
+    return out + list(MUT_COMMENTS) + ['bad_length']
+
+
+def _chunk_mutators():
+    out = [f'set:{key}:{v}' for key in ('k.a', 'k.b', 'k.t', 'k.new') for v in MUT_SCALARS]
+    return out + list(MUT_COMMENTS)
+
+
+BLOCK_MUTATORS = [
+    'add_dict', 'add_dict_comment', 'add_pairs', 'add_chunk_pd', 'add_loop', 'name_other', 'name_uml', 'name_orig',
+    *MUT_COMMENTS, 'c0:set:k.a:under', 'c0:set:k.a:abc', 'c0:set:k.z:int', 'c0:comment_set', 'l0:set:n.x:f1',
+    'l0:set:n.x:f0', 'l0:set:n.s:s1', 'l0:set:n.z:i0', 'l0:comment_set',
+]  # fmt: skip
+BUILDER_MUTATORS = ['name_other', 'name_orig', 'comment_set', 'comment_clear', 'a1', 'a2mix', 'r1', 'bl_known', 'd_tof', 'cal', 'copy', 'save_cif_override']
+
+
+class _LoopTarget:
+    """state: ordered columns {tag: value key}, comment"""
+
+    site = 'save_cif'
+
+    def __init__(self):
+        self.cols = {'n.x': 'f0', 'n.s': 's0', 'n.y': 'fv'}
+        self.comment = 'original comment'
+        self.obj = cif.Loop({k: MUT_VALUES[v]()[0] for k, v in self.cols.items()}, comment=self.comment)
+        self.block = cif.Block('b', [self.obj])
+
+    def mutate(self, m, rec):
+        if m.startswith('set:'):
+            _, col, v = m.split(':')
+            rec.cls('mut_loop_replaced' if col in self.cols else 'mut_loop_added')
+            self.obj[col] = MUT_VALUES[v]()[0]
+            self.cols[col] = v
+        elif m == 'bad_length':
+            try:
+                self.obj['n.x'] = sc.array(dims=['row'], values=[1.0, 2.0])
+            except sc.DimensionError:
+                rec.cls('mut_rejected')  # refused: the loop keeps its content
+            else:
+                raise AssertionError('loop accepted a column of different length')
+        else:
+            self.comment = MUT_COMMENTS[m]
+            self.obj.comment = self.comment
+            rec.cls('mut_comment_changed')
+
+    def groups(self):
+        return [{'kind': 'loop', 'content': True, 'cols': [(k, MUT_VALUES[v]()[1]) for k, v in self.cols.items()]}]
+
+    def writes(self, k):
+        g = self.groups()
+        if k % 2 == 0:
+            return 'Loop.write', False, (lambda: 'data_b\n' + to_buffer(self.obj.write)), 'b', g, [self.comment]
+        return 'Block/save_cif', True, (lambda: to_buffer(lambda f: cif.save_cif(f, self.block))), 'b', g, [self.comment]
+
+    def key(self):
+        return (tuple(self.cols.items()), self.comment)
+
+
+class _ChunkTarget:
+    site = 'save_cif'
+
+    def __init__(self):
+        self.pairs = {'k.a': 'abc', 'k.b': 'float0', 'k.t': 'blank'}
+        self.comment = 'original comment'
+        self.obj = cif.Chunk({k: MUT_SCALARS[v]()[0] for k, v in self.pairs.items()}, comment=self.comment)
+        self.block = cif.Block('b', [self.obj])
+
+    def mutate(self, m, rec):
+        if m.startswith('set:'):
+            _, key, v = m.split(':')
+            rec.cls('mut_chunk_replaced' if key in self.pairs else 'mut_chunk_added')
+            self.obj[key] = MUT_SCALARS[v]()[0]
+            self.pairs[key] = v
+        else:
+            self.comment = MUT_COMMENTS[m]
+            self.obj.comment = self.comment
+            rec.cls('mut_comment_changed')
+
+    def groups(self):
+        return [{'kind': 'pairs', 'content': True, 'pairs': [(k, MUT_SCALARS[v]()[1]) for k, v in self.pairs.items()]}]
+
+    def writes(self, k):
+        g = self.groups()
+        if k % 2 == 0:
+            return 'Chunk.write', False, (lambda: 'data_b\n' + to_buffer(self.obj.write)), 'b', g, [self.comment]
+        return 'Block.write', False, (lambda: to_buffer(self.block.write)), 'b', g, [self.comment]
+
+    def key(self):
+        return (tuple(self.pairs.items()), self.comment)
+
+
+class _BlockTarget:
+    """Block holding a chunk c0 and a loop l0; mutated through the block and through the shared items."""
+
+    site = 'save_cif'
+
+    def __init__(self):
+        self.c0 = cif.Chunk({'k.a': 'abc', 'k.b': 1.5}, comment='chunk comment')
+        self.l0 = cif.Loop({'n.x': MUT_VALUES['f0']()[0], 'n.s': MUT_VALUES['s0']()[0]}, comment='loop comment')
+        self.obj = cif.Block('blk', [self.c0, self.l0], comment='original comment')
+        self.name = 'blk'
+        self.comment = 'original comment'
+        # items: [kind, ordered {tag: exp or [exp]}, comment]
+        self.items = [
+            ['pairs', {'k.a': ('str', 'abc'), 'k.b': ('f64', 1.5)}, 'chunk comment'],
+            ['loop', {'n.x': MUT_VALUES['f0']()[1], 'n.s': MUT_VALUES['s0']()[1]}, 'loop comment'],
+        ]
+        self.schemas = set()
+
+    def mutate(self, m, rec):
+        if m == 'add_dict':
+            self.obj.add({'d.a': 'x y', 'd.b': 3})
+            self.items.append(['pairs', {'d.a': ('str', 'x y'), 'd.b': ('int', 3)}, ''])
+        elif m == 'add_dict_comment':
+            self.obj.add({'e.a': 5.5}, comment='added with comment')
+            self.items.append(['pairs', {'e.a': ('f64', 5.5)}, 'added with comment'])
+        elif m == 'add_pairs':
+            self.obj.add([('p.a', 'q'), ('p.b', "r's")])
+            self.items.append(['pairs', {'p.a': ('str', 'q'), 'p.b': ('str', "r's")}, ''])
+        elif m == 'add_chunk_pd':
+            self.obj.add(cif.Chunk({'c.a': "it's"}, schema=cif.PD_SCHEMA, comment='pd chunk'))
+            self.items.append(['pairs', {'c.a': ('str', "it's")}, 'pd chunk'])
+            self.schemas |= {cif.CORE_SCHEMA, cif.PD_SCHEMA}
+        elif m == 'add_loop':
+            self.obj.add(cif.Loop({'m.s': MUT_VALUES['s1']()[0], 'm.v': MUT_VALUES['fv']()[0]}))
+            self.items.append(['loop', {'m.s': MUT_VALUES['s1']()[1], 'm.v': MUT_VALUES['fv']()[1]}, ''])
+        elif m.startswith('name_'):
+            self.name = {'name_other': 'other/name', 'name_uml': 'ünï', 'name_orig': 'blk'}[m]
+            self.obj.name = self.name
+            rec.cls('mut_renamed')
+        elif m in MUT_COMMENTS:
+            self.comment = MUT_COMMENTS[m]
+            self.obj.comment = self.comment
+            rec.cls('mut_comment_changed')
+        elif m.startswith('c0:set:'):
+            _, _, key, v = m.split(':')
+            self.c0[key] = MUT_SCALARS[v]()[0]
+            self.items[0][1][key] = MUT_SCALARS[v]()[1]
+            rec.cls('mut_inner_item')
+        elif m == 'c0:comment_set':
+            self.c0.comment = self.items[0][2] = 'new chunk comment'
+        elif m.startswith('l0:set:'):
+            _, _, col, v = m.split(':')
+            self.l0[col] = MUT_VALUES[v]()[0]
+            self.items[1][1][col] = MUT_VALUES[v]()[1]
+            rec.cls('mut_inner_item')
+        elif m == 'l0:comment_set':
+            self.l0.comment = self.items[1][2] = 'new loop comment'
+        else:
+            raise ValueError(m)
+        if m.startswith('add_'):
+            rec.cls('mut_block_added')
+
+    def groups(self):
+        g = [{'kind': 'schema', 'rows': _schema_rows(self.schemas)}] if self.schemas else []
+        for kind, d, _ in self.items:
+            if kind == 'pairs':
+                g.append({'kind': 'pairs', 'content': True, 'pairs': list(d.items())})
+            else:
+                g.append({'kind': 'loop', 'content': True, 'cols': list(d.items())})
+        return g
+
+    def writes(self, k):
+        g = self.groups()
+        comments = [self.comment, *[c for _, _, c in self.items]]
+        if k % 2 == 0:
+            return 'save_cif', True, (lambda: to_buffer(lambda f: cif.save_cif(f, self.obj))), self.name, g, comments
+        return 'Block.write', False, (lambda: to_buffer(self.obj.write)), self.name, g, comments
+
+    def key(self):
+        return (self.name, self.comment, repr(self.items), len(self.schemas))
+
+
+TARGETS = {'loop': _LoopTarget, 'chunk': _ChunkTarget, 'block': _BlockTarget}
+MUTATORS = {'loop': _loop_mutators(), 'chunk': _chunk_mutators(), 'block': BLOCK_MUTATORS}
+
+
+def _run_program(rec, target, program, sub):
+    """write, then (mutate, write)* ; the k-th write alternates between the two routes of the target."""
+    t = TARGETS[target]()
+    first_key = t.key()
+    texts = {}
+    for k in range(len(program) + 1):
+        if k:
+            t.mutate(program[k - 1], rec)
+            rec.transitions += 1
+        # both routes after every step: the first of them is the 'scratch' write that a cache could remember
+        for kk in (k, k + 1):
+            route, header, w, name, groups, comments = t.writes(kk)
+            text = attempt(rec, t.site, w, header=header, sub={**sub, 'step': k, 'route': route}, name=name, groups=groups, comments=comments)
+            if k == 0:
+                texts[route] = text
+            elif t.key() == first_key and text is not None:
+                rec.cls('mut_back_to_original')
+                if texts.get(route) is not None and text != texts[route]:
+                    rec.viol(t.site, 'content_mismatch', f'content changed back to the original but the file differs: {text[:200]!r} vs {texts[route][:200]!r}', **{**sub, 'step': k, 'route': route})
+
+
+def run_mutate(case, rec):
+    target, first = case['target'], case['first']
+    muts = MUTATORS[target]
+    depth = case['depth']
+    rest = [()] if depth == 1 else [(b,) for b in muts] if depth == 2 else [(b, c) for b in muts for c in muts]
+    for tail in rest:
+        program = [first, *tail]
+        _run_program(rec, target, program, {'labels': [], 'traits': ['modify_after_write'], 'target': target, 'program': program})
+
+
+def run_mutate_builder(case, rec):
+    """Saved builder, then setters / with_* / copy, then save again (both the new and the old builders)."""
+    program = case['program']
+    sub = {'labels': [], 'traits': ['modify_after_write'], 'target': 'builder', 'program': program}
+    content_comments = {'beam': 'beamline comment', 'powder': 'user comment', 'cal': 'calibration'}
+
+    def save(st, k, route='save'):
+        comments = [st['comment'], *[content_comments[kind] for kind, _ in st['model']['content']]]
+        if route == 'save_cif_override':
+            comments[0] = 'override comment'
+            w = lambda: to_buffer(lambda f: cif.save_cif(f, st['b'], comment='override comment'))  # noqa: E731
+        else:
+            w = lambda: to_buffer(st['b'].save)  # noqa: E731
+        attempt(rec, 'CIF.save', w, header=True, sub={**sub, 'step': k, 'route': route}, name=st['name'], groups=builder_groups(st['model']), comments=comments)
+
+    cur = {'b': cif.CIF('nm', comment='original comment'), 'model': {'authors': [], 'reducers': [], 'content': []}, 'name': 'nm', 'comment': 'original comment'}
+    states = [cur]
+    save(cur, 0)
+    for k, m in enumerate(program, 1):
+        rec.transitions += 1
+        if m in ('name_other', 'name_orig'):
+            cur['name'] = 'other/name' if m == 'name_other' else 'nm'
+            cur['b'].name = cur['name']
+            rec.cls('mut_renamed')
+        elif m in ('comment_set', 'comment_clear'):
+            cur['comment'] = MUT_COMMENTS[m]
+            cur['b'].comment = cur['comment']
+            rec.cls('mut_comment_changed')
+        elif m == 'save_cif_override':
+            save(cur, k, 'save_cif_override')  # must not change the builder's own comment
+        else:
+            b2, model2 = apply_op(m, cur['b'], cur['model'])
+            cur = {'b': b2, 'model': model2, 'name': cur['name'], 'comment': cur['comment']}
+            states.append(cur)
+            rec.cls('mut_builder_after_save')
+        save(cur, k)
+    # earlier (already saved) builders still describe their own content
+    for st in states[:-1]:
+        save(st, len(program) + 1)
+
+
+def run_badname_after_write(case, rec):
+    """A rejected name assignment must leave the object writing its previous (valid) name."""
+    nm = case['name']
+    sub = {'labels': [], 'traits': ['modify_after_write', 'block_name'], 'target': case['target'], 'name': nm}
+    if case['target'] == 'block':
+        obj = cif.Block('good', [{'k.a': 'abc'}])
+        w = lambda: to_buffer(lambda f: cif.save_cif(f, obj))  # noqa: E731
+        groups = [{'kind': 'pairs', 'content': True, 'pairs': [('k.a', ('str', 'abc'))]}]
+        site = 'save_cif'
+    else:
+        obj = cif.CIF('good')
+        w = lambda: to_buffer(obj.save)  # noqa: E731
+        groups = builder_groups({'authors': [], 'reducers': [], 'content': []})
+        site = 'CIF.save'
+    attempt(rec, site, w, header=True, sub={**sub, 'step': 0}, name='good', groups=groups)
+    rec.transitions += 1
+    try:
+        obj.name = nm
+    except ValueError:
+        rec.cls('block_name_rejected')
+    else:
+        rec.viol('Block.name', 'accepted_bad_name', f'name {nm!r} accepted by the setter', **sub)
+        return
+    rec.states += 1
+    rec.transitions += 1
+    rec.evals += 1
+    try:
+        text = w()
+    except ValueError as e:  # the object can no longer be written at all
+        text = f'<{type(e).__name__}: {e}>'
+    rec.observe(text)
+    try:
+        doc = cp.parse(text, require_header=True)
+        ok = [b.name for b in doc.blocks] == ['good']
+    except cp.CifSyntaxError:
+        ok = False
+    if not ok:
+        rec.viol('Block.name', 'rejected_name_kept', f'after the rejected assignment name = {nm!r} the object writes {text[:60]!r}', **sub)
+    else:
+        rec.validated += 1
+        rec.cls('doc_ok')
+
+
 RUNNERS = {
     'chunk1': run_chunk1, 'num1': run_num1, 'chunk2': run_chunk2, 'loop22': run_loop22, 'loop13': run_loop13,
     'loop31': run_loop31, 'loopnum': run_loopnum, 'block': run_block, 'multiblock': run_multiblock,
     'badname': run_badname, 'default_name': run_default_name, 'builder': run_builder, 'builder_str': run_builder_str,
+    'mutate': run_mutate, 'mutate_builder': run_mutate_builder, 'badname_after_write': run_badname_after_write,
 }  # fmt: skip
 
 
